@@ -40,12 +40,47 @@ const LAZY: [Order; 2] = [NOR, HNO];
 const LAZY_HAP: [Order; 3] = [NOR, HNO, HAP];
 const ALL4: [Order; 4] = [NOR, HNO, HAP, APP];
 
+/// the expected boolean, written out (λλ2 = TRUE, λλ1 = FALSE) rather than taken from the crate's `From<bool>`
 fn b(x: bool) -> Term {
-    x.into()
+    if x {
+        abs(abs(Var(2)))
+    } else {
+        abs(abs(Var(1)))
+    }
+}
+
+/// Expected values are built with the crate's own encoders; before they are trusted as expectations, every encoder
+/// the runner uses is checked against the harness's independent shape decoders on the range it is used on (C12 does
+/// this at length; repeated here so that C13–C16 do not lean on it).
+pub fn encoders_sane(ctx: &mut Ctx, church_to: usize, small_to: usize, binary_to: usize) {
+    use crate::props2::{dec_binary, dec_church, dec_parigot, dec_scott, dec_stumpfu};
+    for n in 0..=church_to {
+        if dec_church(&n.into_church()) != Some(n) {
+            ctx.fail("into_church does not produce the Church numeral of its argument", &[format!("enc church {}", n)]);
+        }
+    }
+    for n in 0..=small_to {
+        if dec_scott(&n.into_scott()) != Some(n) {
+            ctx.fail("into_scott does not produce the Scott numeral of its argument", &[format!("enc scott {}", n)]);
+        }
+        if n <= 14 && dec_parigot(&n.into_parigot()) != Some(n) {
+            ctx.fail("into_parigot does not produce the Parigot numeral of its argument", &[format!("enc parigot {}", n)]);
+        }
+        if dec_stumpfu(&n.into_stumpfu()) != Some(n) {
+            ctx.fail("into_stumpfu does not produce the Stump-Fu numeral of its argument", &[format!("enc stumpfu {}", n)]);
+        }
+    }
+    for n in 0..=binary_to {
+        if dec_binary(&n.into_binary()) != Some(n) {
+            ctx.fail("into_binary does not produce the binary numeral of its argument", &[format!("enc binary {}", n)]);
+        }
+    }
+    ctx.count("encoders_checked_against_decoders");
 }
 
 // ------------------------------------------------------------------------------------------ C13
 pub fn c13(ctx: &mut Ctx) {
+    encoders_sane(ctx, 600, 0, 0);
     use lambda_calculus::data::num::church::*;
     let g = if ctx.thorough { 7usize } else { 4 };
     let ch = |n: usize| n.into_church();
@@ -157,6 +192,7 @@ fn c13_sparse(ctx: &mut Ctx) {
 
 // ------------------------------------------------------------------------------------------ C14
 pub fn c14(ctx: &mut Ctx) {
+    encoders_sane(ctx, 40, 40, 300);
     use lambda_calculus::data::num::{binary, church, parigot, scott, stumpfu};
     let g = if ctx.thorough { 6usize } else { 4 };
     let sc = |n: usize| n.into_scott();
@@ -312,6 +348,7 @@ pub fn c14(ctx: &mut Ctx) {
 
 // ------------------------------------------------------------------------------------------ C15
 pub fn c15(ctx: &mut Ctx) {
+    encoders_sane(ctx, 30, 30, 0);
     use lambda_calculus::data::num::signed::*;
     let g: usize = if ctx.thorough { 4 } else { 2 };
     let encs = [
@@ -400,6 +437,7 @@ fn plist(v: &[usize]) -> Term {
 }
 
 pub fn c16(ctx: &mut Ctx) {
+    encoders_sane(ctx, 40, 12, 0);
     use lambda_calculus::data::list::{church as cl, pair as pl, parigot as gl, scott as sl};
     use lambda_calculus::data::num::church as cn;
     let (maxlen, alpha) = if ctx.thorough { (4, 3) } else { (3, 2) };
@@ -639,6 +677,12 @@ pub fn c17(ctx: &mut Ctx) {
         let so = app(op::some(), x.clone());
         check_eq(ctx, "is_some (some x)", &app(op::is_some(), so.clone()), &b(true));
         check_eq(ctx, "is_none (some x)", &app(op::is_none(), so.clone()), &b(false));
+        check_eq(ctx, "is_some none", &app(op::is_some(), op::none()), &b(false));
+        check_eq(ctx, "is_none none", &app(op::is_none(), op::none()), &b(true));
+        // the From conversions against the encoded constructors (compared in Rust, not only through the model)
+        check_eq(ctx, "Term::from(None) = none", &Term::from(None::<Term>), &op::none());
+        check_eq(ctx, "Term::from(true) = tru", &Term::from(true), &bo::tru());
+        check_eq(ctx, "Term::from(false) = fls", &Term::from(false), &bo::fls());
         check_eq(ctx, "map f (some x) = some (f x)", &app!(op::map(), f.clone(), so.clone()), &app(op::some(), app(f.clone(), x.clone())));
         check_eq(ctx, "map f none = none", &app!(op::map(), f.clone(), op::none()), &op::none());
         check_eq(ctx, "map_or d f (some x) = f x", &app!(op::map_or(), y.clone(), f.clone(), so.clone()), &app(f.clone(), x.clone()));
